@@ -65,6 +65,9 @@ type vrtSchedule struct {
 	// Stride: the k-th task of a source carries task id k*Stride and a batch ending before k carries the exclusive high
 	// watermark k*Stride-1 (Stride > 1): Temporal's task ids are sparse and its watermark is not "last id + 1"
 	Stride int      `json:"stride"`
+	// Rawless: tasks carry no raw_task_info (what a sender older than the field sends); namespace id, workflow id and run id are
+	// in the task attributes only
+	Rawless bool `json:"rawless"`
 	Cmds   []vrtCmd `json:"cmds"`
 }
 
@@ -329,7 +332,7 @@ func (s *vrtSrvStream) Send(resp *adminservice.StreamWorkflowReplicationMessages
 	payloadOK := true
 	for _, t := range m.GetReplicationTasks() {
 		pids = append(pids, t.SourceTaskId)
-		tok := ""
+		tok := t.GetHistoryTaskAttributes().GetRunId()
 		if t.RawTaskInfo != nil {
 			tok = t.RawTaskInfo.RunId
 			if t.RawTaskInfo.TaskId != t.SourceTaskId {
@@ -354,6 +357,8 @@ func (s *vrtSrvStream) Send(resp *adminservice.StreamWorkflowReplicationMessages
 		owner := 0
 		if t.RawTaskInfo != nil {
 			owner = int(servercommon.WorkflowIDToHistoryShard(t.RawTaskInfo.NamespaceId, t.RawTaskInfo.WorkflowId, int32(s.h.sched.NT)))
+		} else if a := t.GetHistoryTaskAttributes(); a != nil {
+			owner = int(servercommon.WorkflowIDToHistoryShard(a.NamespaceId, a.WorkflowId, int32(s.h.sched.NT)))
 		}
 		tasks = append(tasks, map[string]interface{}{"pid": t.SourceTaskId, "s": tk.S, "id": tk.ID, "owner": owner})
 	}
@@ -447,7 +452,7 @@ func (h *vrtHarness) reset(sc *vrtSchedule) {
 			}
 		}
 	}
-	h.emit(map[string]interface{}{"ev": "Config", "id": sc.ID, "ns": sc.NS, "nt": sc.NT, "route": sc.Route, "late": sc.Late, "stride": h.stride()})
+	h.emit(map[string]interface{}{"ev": "Config", "id": sc.ID, "ns": sc.NS, "nt": sc.NT, "route": sc.Route, "late": sc.Late, "stride": h.stride(), "rawless": sc.Rawless})
 	h.mu.Unlock()
 	late := map[int]bool{}
 	for _, t := range sc.Late {
@@ -591,6 +596,11 @@ func (h *vrtHarness) mkTask(s int, id int64, ns, wf string) *replicationv1.Repli
 			FirstEventId: int64(h.rng.Intn(1000)), NextEventId: int64(1000 + h.rng.Intn(1000)),
 		},
 		Data: &commonpb.DataBlob{Data: data},
+	}
+	if h.sched.Rawless {
+		t.RawTaskInfo = nil
+		t.Attributes = &replicationv1.ReplicationTask_HistoryTaskAttributes{HistoryTaskAttributes: &replicationv1.HistoryTaskAttributes{
+			NamespaceId: ns, WorkflowId: wf, RunId: tok}}
 	}
 	h.tokens[tok] = vrtTok{S: s, ID: h.real(id)}
 	h.orig[tok] = proto.Clone(t).(*replicationv1.ReplicationTask)
